@@ -80,6 +80,8 @@ def coqtype(t):
         return "(%s)" % t.coq()
     if t in ("ind", "nat", "Q", "bool"):
         return t
+    if t == "reducer":
+        return "(list Q -> M Q)"
     if is_list(t) and elem(t) in ("ind", "nat", "Q"):
         return "(list %s)" % elem(t)
     raise Refuse("type", "no Coq type for %s" % (t,))
@@ -121,9 +123,9 @@ EXPECTED = {
 BUILTINS = ("sorted", "max", "min", "sum", "len", "range", "list", "float", "abs", "getattr", "zip", "enumerate",
             "ValueError", "int", "bool", "tuple", "reversed", "map", "filter", "any", "all", "iter", "next", "setattr")
 # identifiers the generated text uses: a Python local of that name would capture them
-RESERVED = set("""fun forall exists match with end if then else let in as return fix cofix struct Type Prop Set where at
+RESERVED = set("""filterM fun forall exists match with end if then else let in as return fix cofix struct Type Prop Set where at
 ret raise bind w M ind draw res Ok Raise Mismatch exn IndexError ZeroDivisionError ValueError AssertionError OtherError
-choice random01 shuffle sample uniformM uniform mapM repeatM for_each for_break while_fuel Next Break ctl range_step index value_at
+choice random01 shuffle sample uniformM uniform mapM repeatM for_each for_break while_fuel Next Break ctl range_step index
 qdivM py_maxM qmaxM qminM unpack2 pop0 Qnat values wv size cd uid dominates cd_lt f_lt f_gt f_le py_sorted py_sorted_rev
 py_max firstn seq map filter combine length app nil cons fst snd negb andb orb true false tt unit nat Q bool list option
 Some None Qplus Qminus Qmult Qdiv Qabs Qltb Qle_bool Qeq_bool qsum qmax qmin median Nat S O nth nth_error""".split())
@@ -237,6 +239,8 @@ class FnTr(object):
                 return cn(e.id), self.env[e.id]
             if e.id in self.glob:
                 return "gen_%s" % e.id, self.glob[e.id]
+            if e.id in ("max", "min"):
+                return ("qmaxM" if e.id == "max" else "qminM"), "reducer"      # the builtin as a value: f = max if .. else min
             refuse(e, "unknown name %s" % e.id)
         if isinstance(e, ast.List):
             if e.elts:
@@ -523,9 +527,17 @@ class FnTr(object):
         sub = self.sub()
         sub.env.update(tys)
         if c.ifs:
-            cond, tc = sub.pure(c.ifs[0], "comprehension filter")
+            fb = []
+            cond, tc = sub.expr(c.ifs[0], fb)
             if tc != "bool":
                 refuse(c.ifs[0], "filter of type %s" % (tc,))
+            if fb:
+                # the filter can raise: evaluated element by element, in order (filterM); the element must be the target itself
+                if not (isinstance(g.elt, ast.Name) and isinstance(c.target, ast.Name) and g.elt.id == c.target.id):
+                    refuse(g, "comprehension whose filter can raise and whose element is not the loop variable")
+                x = self.temp()
+                binds.append((x, "filterM (fun %s => %s) %s" % (pat, self.chain(fb, cond), lst)))
+                return x, "list " + tys[c.target.id]
             lst = "(filter (fun %s => %s) %s)" % (pat, cond, lst)
         inner = []
         v, t = sub.expr(g.elt, inner)
@@ -630,6 +642,13 @@ class FnTr(object):
             return self.builtin(e, name, binds)
         # functions: translated module-level ones, nested defs, function-typed parameters
         fv, ft = self.expr(f, binds)
+        if ft == "reducer":
+            if e.keywords:
+                refuse(e, "keyword argument of max/min")
+            v, _ = self.seq_arg(e, binds)
+            x = self.temp()
+            binds.append((x, "%s %s" % (fv, v)))
+            return x, "Q"
         if not isinstance(ft, FnT):
             refuse(e, "call of a value of type %s" % (ft,))
         return self.apply(e, fv, ft, name in self.glob and name not in self.env, binds)
@@ -1019,7 +1038,7 @@ class FnTr(object):
             if name in self.env:
                 refuse(s, "rebinding of %s to a function" % name)
             self.env[name] = t
-        elif t in ("ind", "nat", "Q", "bool") or is_list(t):
+        elif t in ("ind", "nat", "Q", "bool", "reducer") or is_list(t):
             self.bind_local(s, name, t, from_literal=lit)
         else:
             refuse(s, "local of type %s" % (t,))
@@ -1042,7 +1061,9 @@ class FnTr(object):
             ta = a.block(list(s.body) + ([] if tb else rest), sc, ind + 1)
             tb_ = b.block(list(s.orelse) + ([] if te else rest), sc, ind + 1)
             return pre + pad + "if %s then (\n%s\n%s) else (\n%s\n%s)" % (c, ta, pad, tb_, pad)
-        vs = self.assigned(list(s.body) + list(s.orelse))
+        # locals bound in only one branch and unknown before the if are branch-local (a later use is an unknown name)
+        ab, ae = self.assigned(list(s.body)), self.assigned(list(s.orelse))
+        vs = [v for v in self.assigned(list(s.body) + list(s.orelse)) if v in self.env or (v in ab and v in ae)]
         if not vs:
             refuse(s, "if statement without effect on locals")
         a, b = self.sub(), self.sub()
